@@ -266,7 +266,9 @@ func run(id, tier, only, repo, verifDir, solver string, verbose, noReplay bool, 
 			}
 			validated++
 			if kf := matchKnown(known, id, f); kf != nil {
-				fmt.Printf("KNOWN-FINDING: property=%s %s\n", id, strings.TrimSpace(strings.TrimPrefix(kf.Text, "finding:")))
+				what := strings.TrimSpace(strings.TrimPrefix(kf.Text, "finding:"))
+				what = strings.TrimSpace(strings.TrimPrefix(what, "property="+id))
+				fmt.Printf("KNOWN-FINDING: property=%s %s\n", id, what)
 				knownHits++
 				continue
 			}
